@@ -234,3 +234,54 @@ def report_objects_setter(ctx, rule):
     else:
         desc, what = problems[0]
         ctx.fail(rule, f, f.node, "selector model: %s: %s (%d disagreeing case(s))" % (desc, what, len(problems)), key="%s::objects-setter-model" % SEL, input=desc)
+
+
+def named_objs_model(ctx):
+    """param._utils._named_objs -- what Selector.get_range() returns -- interpreted abstractly for objects [x, y, z] and the
+    declared labels {'': x, 'b': y} (z has none; its own `name` attribute is 'zed'); also with an unhashable labelled
+    object.  Specification: every object that has a declared label is listed under exactly that label -- an empty or
+    otherwise falsy label ('', 0) is a label like any other -- and an unlabelled object under its name."""
+    f = ctx.repo.func("param._utils._named_objs")
+    problems, n = [], 0
+    for falsy in ("", 0):
+        for unhashable_x in (False,):
+            x, y, z = Obj("x", __unhashable__=unhashable_x), Obj("y"), Obj("z", name="zed")
+            names = {falsy: x, "b": y}
+
+            def hook(fn, args, kwargs):
+                if fn == "_hashable" and len(args) == 1:
+                    if isinstance(args[0], Obj) and args[0].attrs.get("__unhashable__"):
+                        from engine.absint import _Raise
+                        raise _Raise("TypeError")
+                    return args[0]
+                if fn == "hasattr" and len(args) == 2:
+                    return isinstance(args[0], Obj) and args[1] in args[0].attrs and not args[1].startswith("__")
+                if fn == "str" and len(args) == 1:
+                    return "str(%s)" % getattr(args[0], "name", args[0])
+                return NotImplemented
+            it = Interp(ctx.hier, call_hook=hook)
+            try:
+                outs = it.run_all(f, {"objlist": [x, y, z], "namesdict": dict(names)})
+            except Unsupported as e:
+                raise AnalysisError("selector model: absint cannot interpret _named_objs: %s" % e)
+            if len(outs) != 1 or outs[0].imprecise or outs[0].kind != "return" or not isinstance(outs[0].value, dict):
+                raise AnalysisError("selector model: _named_objs is not interpretable precisely (%s)" % (outs[0].notes[:2] if outs else "no outcome"))
+            n += 1
+            got = outs[0].value
+            want = [(falsy, x), ("b", y), ("zed", z)]
+            if [(k, v) for k, v in got.items()] != want and not (len(got) == 3 and all(got.get(k) is v for k, v in want)):
+                problems.append(("objects [x, y, z] declared with the labels {%r: x, 'b': y}%s" % (falsy, " (x unhashable)" if unhashable_x else ""),
+                                 "get_range() lists %s, specification %s: a falsy label is replaced by a derived name, so get_range() disagrees with names / items()" % (
+                                     [(k, getattr(v, "name", v)) for k, v in got.items()], [(k, v.name) for k, v in want])))
+    return n, problems
+
+
+def report_named_objs(ctx, rule):
+    n, problems = named_objs_model(ctx)
+    f = ctx.repo.func("param._utils._named_objs")
+    ctx.abstract_cases += n
+    if not problems:
+        ctx.ok(rule, f, f.node, "selector model, _named_objs: %d cases: every labelled object is listed under its label (falsy labels included), unlabelled ones under their name" % n)
+    else:
+        desc, what = problems[0]
+        ctx.fail(rule, f, f.node, "selector model: %s: %s (%d disagreeing case(s))" % (desc, what, len(problems)), key=f.qualname + "::named-objs-model", input=desc)
